@@ -18,3 +18,37 @@ Theorem C09_file_stream_partition_free : forall boundary r1 l1 r2 l2 terr1 terr2
   file_stream boundary r1 l1 terr1 = file_stream boundary r2 l2 terr2.
 Proof. exact file_stream_partition_free. Qed.
 Print Assumptions C09_file_stream_partition_free.
+
+(* POST forms, the field section: try_parse is monotone in the buffer - a decision reached on a prefix is the decision on every
+   extension, the extension appended to the bytes left for the file part - so accumulating frames and re-parsing is a function
+   of the concatenation: same fields, file name, content type and remaining bytes for every framing *)
+From S3V Require Import proofs.MultipartFields.
+Theorem C09_try_parse_monotone : forall boundary buf x d,
+  try_parse true boundary buf = Decided d -> try_parse true boundary (buf ++ x) = Decided (ext_d d x).
+Proof. exact try_parse_app. Qed.
+Print Assumptions C09_try_parse_monotone.
+Theorem C09_form_fields_partition_free : forall boundary terr f1 f2, concat f1 = concat f2 ->
+  canon (transform true boundary [] f1 terr) = canon (transform true boundary [] f2 terr).
+Proof. exact transform_same_bytes. Qed.
+Print Assumptions C09_form_fields_partition_free.
+
+(* the whole form as the backend receives it (normalised fields, file name, content type, file bytes, terminal outcome) is the same
+   for two framings of the same body, whenever the closing delimiter is there *)
+Theorem C09_post_form_partition_free : forall boundary terr f1 f2,
+  concat f1 = concat f2 ->
+  (forall fs fn ct rest, canon (transform true boundary [] f1 terr) = PFields fs fn ct rest ->
+     exists i, find_pat (CR :: LF :: 45%N :: 45%N :: boundary) rest = Some i) ->
+  show_multipart true boundary f1 terr = show_multipart true boundary f2 terr.
+Proof. exact show_multipart_partition_free. Qed.
+Print Assumptions C09_post_form_partition_free.
+
+(* non-vacuity: one form under three framings *)
+Example C09_post_form_example :
+  let body := b "--B" ++ [13; 10] ++ b "Content-Disposition: form-data; name=""key""" ++ [13; 10; 13; 10] ++ b "k1" ++ [13; 10]
+              ++ b "--B" ++ [13; 10] ++ b "Content-Disposition: form-data; name=""file""; filename=""f""" ++ [13; 10]
+              ++ b "Content-Type: text/plain" ++ [13; 10; 13; 10] ++ b "DATA" ++ [13; 10] ++ b "--B--" ++ [13; 10] in
+  show_multipart true (b "B") [body] false = show_multipart true (b "B") (map (fun c => [c]) body) false
+  /\ show_multipart true (b "B") [firstn 70 body; []; skipn 70 body] false = show_multipart true (b "B") [body] false
+  /\ show_multipart true (b "B") [body] false = b "fields=6b6579:6b31|name=66|ct=746578742f706c61696e|file=44415441|ok".
+Proof. vm_compute. repeat split; reflexivity. Qed.
+Print Assumptions C09_post_form_example.
